@@ -69,6 +69,7 @@ def c18_family(tier, sd=0):
         mk([("G", 2047, "zzzz"), ("F", 2046, "zzz")]),
         mk([("D", 300, "CAN1"), ("C", 3, "_"), ("H", 30, "CAN1")]),
         mk([("Msg2", 77, "c"), ("EngineStatus", 78, "pt"), ("B", 79, "Msg2")]),
+        mk([("A", 17, "can1"), ("B", 17, "CAN1"), ("H", 18, "Can1")]),          # bus names that differ only in letter case
     ]
     if tier == "thorough":
         rng = random.Random(sd)
